@@ -1111,6 +1111,13 @@ def shrink_case(part, case, key, base_of):
 
 
 PARTS = [StrPart(), VecPart(), QuePart()]
+# every entry point of the four containers that can ask the allocator for memory
+EXPECTED_SITES = ["a_str_new", "a_str_setm", "a_str_setm_", "a_str_exit", "a_str_catc", "a_str_catc_", "a_str_catn", "a_str_catn_",
+                  "a_str_cats", "a_str_cats_", "a_str_cat", "a_str_cat_", "a_str_catf", "a_utf_catc",
+                  "a_vec_new", "a_vec_setm", "a_vec_setn", "a_vec_push_sort", "a_vec_insert", "a_vec_push_fore", "a_vec_push_back",
+                  "a_vec_store", "a_buf_new", "a_buf_setm",
+                  "a_que_push_fore", "a_que_push_back", "a_que_insert", "a_que_push_sort", "a_que_pull_fore", "a_que_pull_back",
+                  "a_que_remove", "a_que_drop", "a_que_setz"]
 
 
 def coqchk(ctx):
@@ -1149,7 +1156,7 @@ def run(ctx):
         mid = cases[len(cases) // 2]
         cl = cout.get(mid.cid, [])
         if cl:
-            ctx.sample({"part": part.name, "case": mid.cid, "schedule": mid.sched, "ops": mid.ops[:6],
+            ctx.sample({"part": part.name, "case": mid.cid, "schedule": show_sched(mid.sched), "ops": mid.ops[:6],
                         "c_and_model_line": cl[min(len(cl), len(mid.ops)) - 1][:240]})
         seen = {}
         for c, f in sorted(fails, key=lambda cf: len(cf[0].ops)):
@@ -1176,6 +1183,11 @@ def run(ctx):
                                "failing_op_index": f2[0], "expected": f2[2], "c_output": co, "model_output": mo,
                                "original_case": c.cid}, found_input=True)
     ctx.count(evaluations=tot_ops, nontrivial=nontrivial)
+    reached = set()
+    for st in ctx.cov["parts"].values():
+        reached |= set(st.get("refused_by_function", {}))
+    ctx.cov["allocation_sites_expected"] = EXPECTED_SITES
+    ctx.cov["allocation_sites_never_refused_in_this_run"] = [f for f in EXPECTED_SITES if f not in reached]
     ctx.cov["trusted_base"] += [
         "hand-written models coq/C06/StrDefs.v, coq/C04/VecDefs.v, coq/C05/QueDefs.v + coq/C07/*Defs.v, tied to the C by the "
         "fault-enumerating correspondence of this check (and by checks/C06.py, C04.py, C05.py on their own histories)",
